@@ -130,6 +130,7 @@ func (m *Message) canRead(sz Size) bool {
 	m.rlimitInit.Do(m.initReadLimit)
 	for {
 		curr := atomic.LoadUint64(&m.rlimit)
+		verifYield("canRead:loaded")
 		ok := curr >= uint64(sz)
 		var new uint64
 		if ok {
